@@ -278,7 +278,7 @@ class StmtMixin:
 
     def exec_Return(self, node, st):
         ctx = self.new_ctx(st)
-        v = self.ev(node.value, st, ctx) if node.value is not None else mk_none()
+        v = self.ev_hinted(node.value, self.cur_contract.returns, st, ctx) if node.value is not None else mk_none()
         if v.ty.kind == "strlist":
             v = self.materialize_split(v, st)
         out = self.split(st, ctx, node)
